@@ -3503,6 +3503,12 @@ class Interp:
             return self.vfs[path]
         if name in ("str", "repr"):
             return self.render(args[0], n)
+        if name == "format":
+            # format(x) / format(x, spec): the same rules as "{:spec}".format(x)
+            spec = args[1] if len(args) > 1 else ""
+            if not isinstance(spec, str):
+                raise self.unsupported("format() with a computed spec", n)
+            return self.str_format("{:%s}" % spec if spec else "{}", [args[0]], {}, n)
         if name in ("all", "any"):
             src = args[0]
             if isinstance(src, LazyIter):
@@ -4371,7 +4377,7 @@ def _dotp(r, c):
 
 OPNAME = {ast.Lt: "<", ast.LtE: "<=", ast.Gt: ">", ast.GtE: ">=", ast.Eq: "==", ast.NotEq: "!="}
 ARR_METHODS = {"eliminate_zeros", "sum_duplicates", "setflags", "tobytes", "tostring", "__array__", "squeeze", "conj", "conjugate", "all", "item", "max", "min", "fill", "tocsr", "tocsc", "tolil", "todense", "toarray", "tocoo", "any", "view", "copy", "dot", "transpose", "flatten", "ravel", "tolist", "astype", "reshape", "sum", "round"}
-BUILTIN_NAMES = {"divmod", "slice", "map", "filter", "sorted", "getattr", "hasattr", "setattr", "next", "iter", "id", "abs", "bool", "open", "str", "repr", "set", "frozenset", "dict", "isinstance", "issubclass", "type", "len", "range", "zip", "enumerate", "reversed", "list", "tuple",
+BUILTIN_NAMES = {"format", "divmod", "slice", "map", "filter", "sorted", "getattr", "hasattr", "setattr", "next", "iter", "id", "abs", "bool", "open", "str", "repr", "set", "frozenset", "dict", "isinstance", "issubclass", "type", "len", "range", "zip", "enumerate", "reversed", "list", "tuple",
                  "all", "any", "sum", "max", "min", "super", "print", "round", "int", "abs", "NotImplementedError"}
 
 
